@@ -142,7 +142,7 @@ func runSeq(c *ev.Check, lim flowcontrols.UpstreamLimiter, base cfg, all []step,
 	sync := func() {
 		sch := []proxyv1alpha1.FlowControlSchema{tb("s", cur)}
 		if otherPresent {
-			sch = append(sch, mif("other", otherMax))
+			sch = append(sch, mif("S", otherMax))
 			if reordered {
 				sch[0], sch[1] = sch[1], sch[0]
 			}
